@@ -16,7 +16,7 @@ RULE = (
 )
 ASSUMPTIONS = ["/proc/self/fd, threading.enumerate(), psutil children and /dev/shm are the observers",
                "a leak must accumulate: equal excess after every repetition is attributed to first-use initialisation"]
-KINDS = ["plain_broken_bigargs", "plain_clean", "plain_with", "plain_nowait", "plain_kill", "plain_broken", "plain_gc", "plain_idle", "plain_nested",
+KINDS = ["plain_broken_bigargs", "plain_broken_gc", "plain_pickle_error_gc", "plain_clean", "plain_with", "plain_nowait", "plain_kill", "plain_broken", "plain_gc", "plain_idle", "plain_nested",
          "reusable_clean", "reusable_resize", "reusable_broken", "reusable_kill", "reusable_idle"]
 
 
@@ -41,7 +41,7 @@ def oracle(prog, out):
     return v
 
 
-def real_shard(seed, n, tier="quick"):
+def real_shard(seed, n, tier="quick", focus=None):
     import hypothesis
     from hypothesis import given, settings, HealthCheck, Phase, strategies as st
     from real import runner
@@ -55,8 +55,12 @@ def real_shard(seed, n, tier="quick"):
     @hypothesis.seed(seed)
     @settings(max_examples=n, database=None, deadline=None, suppress_health_check=list(HealthCheck), report_multiple_bugs=False,
               phases=phases)
-    @given(st.lists(life, min_size=1, max_size=5), st.integers(2, 4))
-    def t(lives, reps):
+    @given(st.lists(life, min_size=0 if focus else 1, max_size=4), st.integers(2, 4), st.integers(1, 3), st.integers(1, 6))
+    def t(lives, reps, fw, fn):
+        if focus:
+            # stratification: every shard puts one lifecycle kind of its own in front, so that each kind is exercised by
+            # several lists whatever the generator's taste
+            lives = [{"kind": focus, "workers": fw, "n": fn}] + lives
         prog = {"lives": lives, "reps": reps}
         res = runner.run("drv_c20.py", prog, base, timeout=600)
         if res["timed_out"]:
@@ -90,7 +94,8 @@ def real_shard(seed, n, tier="quick"):
 def run(tier, seed):
     from vlib.shards import run_jobs
     nr = 48 if tier == "quick" else 480
-    jobs = [{"module": "props.c20", "func": "real_shard", "kwargs": {"seed": common.derive_seed(seed, ID, "r", i), "n": nr // 16, "tier": tier}}
+    jobs = [{"module": "props.c20", "func": "real_shard", "kwargs": {"seed": common.derive_seed(seed, ID, "r", i), "n": nr // 16, "tier": tier,
+                                                                     "focus": KINDS[i % len(KINDS)]}}
             for i in range(16)]
     acc, not_run = run_jobs(jobs, tag="c20", timeout_s=1500 if tier == "quick" else 7200)
     if not_run:
